@@ -403,9 +403,20 @@ fn parse_rows(text: &str, delim: &str) -> Result<Vec<Vec<f64>>, String> {
     Ok(rows)
 }
 
+/// records whose normalised rows hold values just below 1 and just above 0: one odd window in 2.1 million
+pub fn near_one_records() -> Vec<Vec<u8>> {
+    let mut a = vec![b'C'];
+    a.extend(std::iter::repeat(b'A').take(2_100_000));
+    let mut t = vec![b'G'; 3];
+    t.extend(std::iter::repeat(b't').take(2_100_000));
+    t.extend_from_slice(b"GG");
+    vec![b"ACGTAC".to_vec(), a, b"TTGCA".to_vec(), t]
+}
+
 fn c04_named_set(name: &str) -> Vec<Vec<u8>> {
     match name {
         "repeating" => repeating_records(),
+        "near-one" => near_one_records(),
         _ => vec![crate::iters::long_input(70_000, 4), b"ACGU".to_vec(), crate::iters::long_input(66_000, 9), crate::iters::long_input(4097, 1), b"".to_vec(), crate::iters::long_input(140_000, 12)],
     }
 }
@@ -443,6 +454,15 @@ fn c04_file(ctx: &mut Ctx, k: usize, records: &[Vec<u8>], mode: &str, threads: u
                 oc.set_max_memory(7);
                 oc.verif_vectorise_batch()
             }
+            // the memory ceiling is a public setting of the object: it is crossed with the mapped writer too
+            "mmap-small" => {
+                oc.set_max_memory(100);
+                oc.verif_vectorise_mmap()
+            }
+            "mmap-tiny" => {
+                oc.set_max_memory(7);
+                oc.verif_vectorise_mmap()
+            }
             _ => {
                 oc.set_norm(false);
                 oc.vectorise()
@@ -473,7 +493,7 @@ fn c04_file(ctx: &mut Ctx, k: usize, records: &[Vec<u8>], mode: &str, threads: u
         for c in 0..cnt.len() {
             let ok = if mode == "counts" { row[c] == cnt[c] as f64 } else { model::close_to_ratio(row[c], cnt[c], tot) };
             if !ok {
-                return viol(ctx, "file-value", k, format!("file API k={k} {mode}: row {i} (record {:?}) column {c} = {}, expected {}/{}", show(rec), row[c], cnt[c], if mode == "counts" { 1 } else { tot }), argv);
+                return viol(ctx, "file-value", k, format!("file API k={k} {mode}: row {i} (record {:?}{}) column {c} = {}, expected {}/{}", show(&rec[..rec.len().min(60)]), if rec.len() > 60 { format!("... {} bases", rec.len()) } else { String::new() }, row[c], cnt[c], if mode == "counts" { 1 } else { tot }), argv);
             }
         }
         if tot > 0 {
@@ -586,7 +606,7 @@ pub fn c04(ctx: &mut Ctx) {
     let mut nf = 0u64;
     for k in 1..=4usize {
         for (oi, recs) in orders.iter().enumerate() {
-            for (mode, threads) in [("mmap", 3usize), ("mmap", 16), ("batch-norm", 4), ("batch-small", 4), ("counts", 2), ("counts", 1), ("batch-norm", 1)] {
+            for (mode, threads) in [("mmap", 3usize), ("mmap", 16), ("batch-norm", 4), ("batch-small", 4), ("counts", 2), ("counts", 1), ("batch-norm", 1), ("mmap-small", 1), ("mmap-small", 5), ("mmap-tiny", 2)] {
                 if sh.mine() {
                     c04_file_order(ctx, k, recs, mode, threads, oi);
                     nf += 1;
@@ -596,10 +616,11 @@ pub fn c04(ctx: &mut Ctx) {
     }
     // long records (beyond 64 Ki bases, with lower case, U and ambiguous bytes) through every writer path
     // and records that repeat (identical neighbours, reverse complement of the previous record, ...)
-    for set in ["long", "repeating"] {
+    // and a record in which one window in two million differs from all others (printed values next to 1 and to 0)
+    for set in ["long", "repeating", "near-one"] {
         let records = c04_named_set(set);
         for k in [1usize, 3, 4] {
-            for (mode, threads) in [("mmap", 3usize), ("batch-norm", 4), ("batch-small", 2), ("counts", 2), ("counts", 1)] {
+            for (mode, threads) in [("mmap", 3usize), ("batch-norm", 4), ("batch-small", 2), ("counts", 2), ("counts", 1), ("mmap-small", 2)] {
                 if sh.mine() {
                     let before = ctx.rep.violations.len();
                     c04_file(ctx, k, &records, mode, threads);
@@ -799,6 +820,16 @@ pub fn cgr_record_sets() -> Vec<(&'static str, Vec<Vec<u8>>)> {
     sets.push(("bad-all-N", vec![b"AC".to_vec(), b"NNN".to_vec()]));
     sets.push(("bad-trailing-n-lower", vec![b"acgtn".to_vec()]));
     sets.push(("bad-last", vec![b"ACG".to_vec(), b"TT".to_vec(), b"TTx".to_vec()]));
+    // records whose coordinates get very small (long printed forms, denormals, zero) and settle on a corner
+    sets.push(("periodic-extremes", {
+        let mut v: Vec<Vec<u8>> = Vec::new();
+        for u in [&b"A"[..], b"C", b"G", b"T", b"AC", b"AT", b"CA", b"ug"] {
+            for len in [23usize, 30, 60, 1100] {
+                v.push(fill(u, len));
+            }
+        }
+        v
+    }));
     sets.push(("single-bases", (0..175_000usize).map(|i| vec![b"ACGTTGCA"[(i * 5 + i / 8) % 8]]).collect()));
     sets.push(("twenty-thousand", (0..20_000usize).map(|i| model::text_of((i * 2654435761usize % 4096) as u128, 6)[..(1 + (i * 7) % 6)].to_vec()).collect()));
     sets.push(("repeating", repeating_records().into_iter().map(|r| r.iter().map(|&b| if b == b'N' { b'A' } else { b }).collect()).collect()));
@@ -1227,6 +1258,7 @@ pub fn c12_record_sets() -> Vec<(&'static str, Vec<Vec<u8>>)> {
             lf
         }),
         ("repeating", repeating_records()),
+        ("near-one", near_one_records()),
         ("twenty-thousand", (0..20_000usize).map(|i| model::text_of((i * 2654435761usize % 65536) as u128, 8)[..(1 + (i * 5) % 8)].to_vec()).collect()),
         ("fixed-rows", {
             let mut comp = OligoCgrComputer::new("-".into(), "-".into(), 1, 16);
@@ -1353,7 +1385,7 @@ pub fn c12(ctx: &mut Ctx) {
     }
     ctx.lap("c12.boundary_prefixes");
     for (tag, recs) in &sets {
-        if *tag == "twenty-thousand" || *tag == "fixed-rows" {
+        if *tag == "twenty-thousand" || *tag == "fixed-rows" || *tag == "near-one" {
             continue;
         }
         for k in [1usize, 2, 3, 5] {
@@ -1407,6 +1439,14 @@ pub fn c12(ctx: &mut Ctx) {
                     nf += 1;
                     ctx.rep.count("cases.size_boundaries", 1);
                 }
+            }
+        }
+    }
+    for threads in [1usize, 4] {
+        for norm in [true, false] {
+            if sh.mine() {
+                c12_file(ctx, &near_one_records(), 3, 16, norm, threads, 4 << 30, "near-one");
+                nf += 1;
             }
         }
     }
